@@ -30,14 +30,15 @@ def concs_for(ctx, n_random):
     return cs
 
 
-def stream_cfg(kinds, maxlen, rich, dimcheck=True, laws=("AllLaws",), sim=False):
+def stream_cfg(kinds, maxlen, rich, dimcheck=True, laws=("AllLaws",), sim=False, unitgrid=False):
     return cfg_text(spec="SpecU" if sim else "Spec",
-                    constants={"Kinds": set(kinds), "MaxLen": maxlen, "Emit": True, "DimCheck": dimcheck, "Rich": rich},
+                    constants={"Kinds": set(kinds), "MaxLen": maxlen, "Emit": True, "DimCheck": dimcheck, "Rich": rich,
+                               "UnitGrid": unitgrid},
                     invariants=list(laws) + ["EmitInv"], constraints=["Bound"])
 
 
 def run_streams(ctx, kinds, exh_narrow, exh_wide, sim_num, sim_depth, rich, n_random_concs, dimcheck=True,
-                features=None, tag="default", laws=("AllLaws",)):
+                features=None, tag="default", laws=("AllLaws",), unitgrid_len=0):
     """Returns the list of mismatches (already recorded as violations)."""
     narrow = [k for k in kinds if k not in WIDE]
     wide = [k for k in kinds if k in WIDE]
@@ -48,6 +49,9 @@ def run_streams(ctx, kinds, exh_narrow, exh_wide, sim_num, sim_depth, rich, n_ra
             jobs.append(ex.submit(run_tlc, ctx, "Streams", stream_cfg(narrow, exh_narrow, rich, dimcheck, laws), "exh_narrow", 4))
         if wide:
             jobs.append(ex.submit(run_tlc, ctx, "Streams", stream_cfg(wide, exh_wide, rich, dimcheck, laws), "exh_wide", 4))
+        if unitgrid_len:
+            ug = [k for k in kinds if k in ("Integral", "Derivative", "AccToState", "VelToState", "PosToState")]
+            jobs.append(ex.submit(run_tlc, ctx, "Streams", stream_cfg(ug, unitgrid_len, False, dimcheck, laws, unitgrid=True), "unitgrid", 4))
         if sim_num:
             jobs.append(ex.submit(run_tlc, ctx, "Streams", stream_cfg(kinds, sim_depth, rich, dimcheck, laws, sim=True), "sim", 2,
                                   sim_num, sim_depth + 2))
@@ -115,6 +119,58 @@ def finish_streams(ctx, summary, total, what):
     ctx.assumptions += ["exact dyadic domain: sample values, gains and tick lengths are small dyadic rationals, so the f32 "
                         "computation is exact and equals the specification's rational result (tolerance 2^-16 of the largest magnitude)",
                         "the TLA+ transcription of the per-stream documentation is the oracle for reset classes"]
+
+
+@register("C04")
+def c04(ctx):
+    p = (dict(exh_narrow=5, exh_wide=0, sim_num=400, sim_depth=24, rich=False, n_random_concs=2) if ctx.tier == "quick" else
+         dict(exh_narrow=4, exh_wide=0, sim_num=4000, sim_depth=64, rich=True, n_random_concs=6))
+    mism, summary, total = run_streams(ctx, ["PID"], **p)
+    finish_streams(ctx, summary, total,
+                   "Each PID behaviour is also fed to the same controller assembled from the crate's difference, integral, "
+                   "derivative, none-to-value, product, quantity-to-float and sum streams (compared after every present sample); "
+                   "several bases = shift invariance, several value scales = power-of-two scaling. Non-trivial = a present "
+                   "sample after a reset event, or at least two present samples.")
+    ctx.exhaustive = False
+
+
+@register("C10")
+def c10(ctx):
+    kinds = ["Integral", "Derivative", "AccToState", "VelToState", "PosToState"]
+    p = (dict(exh_narrow=4, exh_wide=0, sim_num=400, sim_depth=16, rich=False, n_random_concs=2, unitgrid_len=2) if ctx.tier == "quick" else
+         dict(exh_narrow=4, exh_wide=0, sim_num=4000, sim_depth=64, rich=True, n_random_concs=6, unitgrid_len=3))
+    mism, summary, total = run_streams(ctx, kinds, **p)
+    finish_streams(ctx, summary, total,
+                   "Input units range over the 7x7 grid (short histories) and a few units (long histories); a wrongly "
+                   "dimensioned input to a to-state converter must panic iff dimension checking is compiled in. "
+                   "Non-trivial = at least two present samples or a present sample after a reset.")
+    ctx.exhaustive = False
+
+
+@register("C11")
+def c11(ctx):
+    p = (dict(exh_narrow=0, exh_wide=4, sim_num=600, sim_depth=14, rich=False, n_random_concs=2) if ctx.tier == "quick" else
+         dict(exh_narrow=0, exh_wide=5, sim_num=5000, sim_depth=48, rich=False, n_random_concs=5))
+    mism, summary, total = run_streams(ctx, ["CmdPID"], **p)
+    finish_streams(ctx, summary, total,
+                   "Events: present state sample, absent, two error identities, set(command) with same / other kind / other "
+                   "value, for initial commands of all three kinds with distinct gain triples per kind. Non-trivial = a present "
+                   "sample after a reset (absent, error or different set), or at least two present samples.")
+    ctx.exhaustive = False
+
+
+@register("C12")
+def c12(ctx):
+    kinds = ["EWMA", "EWMAQ", "MA", "MAQ"]
+    p = (dict(exh_narrow=0, exh_wide=4, sim_num=600, sim_depth=16, rich=False, n_random_concs=2) if ctx.tier == "quick" else
+         dict(exh_narrow=0, exh_wide=4, sim_num=5000, sim_depth=64, rich=True, n_random_concs=5))
+    mism, summary, total = run_streams(ctx, kinds, **p)
+    finish_streams(ctx, summary, total,
+                   "Timestamps are non-decreasing (dt 0 = repeated timestamp); windows shorter than a step, equal to it and "
+                   "longer than the history; every f32-variant behaviour is also run on the Quantity variant and compared bit "
+                   "for bit; an unexpected panic is a mismatch. Non-trivial = at least two present samples or a present sample "
+                   "after an error.")
+    ctx.exhaustive = False
 
 
 @register("C05")
